@@ -113,12 +113,12 @@ pub fn families(property: &str) -> Vec<Family> {
         "C18" => vec![Family { fault_free: true, ..fam("peer_receiver_nagle", pr_nagle, 40_000, 1_000_000) }, Family { fault_free: true, ..fam("peer_receiver", pr_generic, 10_000, 300_000) }],
         "C19" => vec![Family { fault_free: true, ..fam("peer_receiver_buffer", pr_buffer, 25_000, 600_000) }, Family { fault_free: true, ..fam("peer_receiver", pr_generic, 10_000, 300_000) }],
         "C07" => vec![Family { fault_free: true, ..fam("peer_sender_exact", ps_exact, 40_000, 1_000_000) }],
-        "C08" => vec![fam("c08_cycles", g::c08_cycles, 8_000, 200_000)],
+        "C08" => vec![fam("c08_cycles", g::c08_cycles, 8_000, 200_000), fam("c13_pairing", g::c13_pairing, 4_000, 100_000)],
         "C09" => vec![fam("c09_isn", g::c09_isn, 25_000, 600_000), Family { fault_free: true, ..fam("c09_wide", g::c09_wide, 150, 5_000) }],
         "C10" => vec![Family { fault_free: true, ..fam("c10_hostile", g::c10_hostile, 20_000, 500_000) }],
         "C12" => vec![fam("c12_many", g::c12_many, 12_000, 300_000)],
         "C13" => vec![fam("c13_pairing", g::c13_pairing, 12_000, 300_000)],
-        "C11" => vec![fam("c11_corrupt", g::c11_corrupt, 20_000, 500_000), fam("c11_unknown_ext", g::c11_unknown_ext, 10_000, 300_000), fam("c01_duplex", c01_duplex, 10_000, 200_000)],
+        "C11" => vec![fam("c11_corrupt", g::c11_corrupt, 20_000, 500_000), fam("c11_unknown_ext", g::c11_unknown_ext, 10_000, 300_000), fam("c01_duplex", c01_duplex, 10_000, 200_000), fam("c13_pairing", g::c13_pairing, 4_000, 100_000)],
         "C14" => vec![fam("c14_blackhole", g::c14_blackhole, 15_000, 400_000), fam("c14_converge", g::c14_converge, 600, 20_000), fam("c01_duplex", c01_duplex, 10_000, 200_000)],
         "C15" | "C16" => vec![fam("c01_duplex", c01_duplex, 20_000, 500_000), fam("c15_extremes", c15_extremes, 15_000, 400_000), fam("c14_blackhole", g::c14_blackhole, 5_000, 100_000)],
         "C17" => vec![
